@@ -29,7 +29,6 @@ EXPLANATION = (
 def run(ctx: Ctx):
     repo = ctx.repo
     rules.rule_transition(ctx, "D1")
-    rules.rule_enter_sites(ctx, {"plug", "stall", "queue", "assign"}, "D1")
     ai = repo.func(SSO, "apply_instructions")
     fam = [ai] + [f for f in repo.module(SSO).funcs.values() if f.qualname.startswith("apply_instructions.")]
     n = sum(rules.rule_adopt_on_success(ctx, f, "transition_previous_to_next", "D2") for f in fam)
@@ -222,7 +221,7 @@ def generation_order(ctx: Ctx):
                   why_bad="instruction_generator_order is not tuple(names in the given order)", construct=f"{qn}:order")
 
 
-def step_phases(ctx: Ctx):
+def step_phases(ctx: Ctx, generators_must_see_driver_updates: bool = False):
     repo = ctx.repo
     fn = repo.func(SS, "StepSimulation.update")
     sim, env = fn.params[1:3]
@@ -240,15 +239,16 @@ def step_phases(ctx: Ctx):
             g_ok = bool(gen_calls) and all(len(e.call.args) >= 2 and flow.dump(e.call.args[1]) == d1 for e in gen_calls)
             ctx.check(shape, "D3", "ORD.phases", "StepSimulation.update: tick(vehicle updates(apply_instructions(driver updates(sim))))", fn, p.end,
                       why_bad=f"returned state = {d[:200]}", construct="StepSimulation.update:state-threading")
-            ctx.check(g_ok, "D3", "ORD.phases", "instruction generators see the state after the driver updates", fn, p.end,
-                      why_bad=f"generate_instructions receives {flow.dump(gen_calls[0].call.args[1])[:80] if gen_calls and len(gen_calls[0].call.args) > 1 else '?'}",
-                      construct="StepSimulation.update:generators-stale-state")
+            if generators_must_see_driver_updates:
+                ctx.check(g_ok, "D3", "ORD.phases", "instruction generators see the state after the driver updates", fn, p.end,
+                          why_bad=f"generate_instructions receives {flow.dump(gen_calls[0].call.args[1])[:80] if gen_calls and len(gen_calls[0].call.args) > 1 else '?'}",
+                          construct="StepSimulation.update:generators-stale-state")
             # one pop per vehicle id, iterating the stack's keys in sorted order, accumulating every popped instruction
             pops = [e for e in p.events if e.name == "pop_from_stack_dict"]
             if pops:
                 e = pops[0]
                 ok_pop = len(e.call.args) >= 2 and flow.is_syn(e.call.args[1], "$elem") and flow.dump(e.call.args[1].args[0]).startswith("sorted(") \
-                    and flow.dump(e.call.args[0]) == f"generate_instructions(self.ordered_instruction_generators, {d1}, {env})[0]"
+                    and flow.dump(e.call.args[0]).startswith("generate_instructions(self.ordered_instruction_generators, ") and flow.dump(e.call.args[0]).endswith(f", {env})[0]")
                 ctx.check(ok_pop, "D3", "ORD.phases", "one pop per vehicle id of the generated stack (sorted ids)", fn, e.raw,
                           why_bad=f"pop call {flow.dump(e.call)[:200]}", construct="StepSimulation.update:pop")
         else:
@@ -269,7 +269,7 @@ def selftest():
           "        stack = xs.get(collection_id, ())\n        if obj in stack:\n            return xs\n        updated_stack = (obj,) + stack\n        return xs.set(collection_id, updated_stack)", rule="ORD.stack"),
         V("drivers-before-generators", IGO, "    result = ft.reduce(\n        lambda acc, gen: acc.apply_instruction_generator(gen, simulation_state, environment),\n        instruction_generators,\n        InstructionGenerationResult(),\n    )",
           "    result = ft.reduce(\n        lambda acc, gen: acc.apply_instruction_generator(gen, simulation_state, environment),\n        instruction_generators,\n        InstructionGenerationResult().add_driver_instructions(simulation_state, environment),\n    )", rule="ORD.generation"),
-        V("generators-see-stale-state", SS, "            self.ordered_instruction_generators, sim_with_drivers_updated, env", "            self.ordered_instruction_generators, simulation_state, env", rule="ORD.phases"),
+        V("twin-generators-see-older-state", SS, "            self.ordered_instruction_generators, sim_with_drivers_updated, env", "            self.ordered_instruction_generators, simulation_state, env", kind="twin"),
         V("transition-returns-exit-state-on-reject", "nrel/hive/state/entity_state/entity_state_ops.py", "        elif not enter_sim:\n            return None, None", "        elif not enter_sim:\n            return None, exit_sim", rule="TS.transition"),
         V("order-as-generator", SS, "            instruction_generator_order=tuple(i_gen.name for i_gen in updated_i_gens),", "            instruction_generator_order=(i_gen.name for i_gen in updated_i_gens),", rule="ORD.generation"),
         V("reserve-exit-leaks-state", "nrel/hive/state/vehicle_state/reserve_base.py", "            elif updated_base is None:\n                return None, None\n            return simulation_state_ops.modify_base(sim, updated_base)",
